@@ -172,11 +172,70 @@ theorem project_add_reject_real {a b : Geonum ℝ} (ha : a.angle.Inv) (hb : b.an
     ring
   rw [e]; exact hsub
 
+/-- (E) **the rejection is orthogonal to `b`**: the exact residual `cart a − cart(proj)` has a component along `b`'s direction of at
+    most `|a|·(1e-10+1e-15)`, and `|proj|² + |residual|² = |a|²` to within `2|a|²·(1e-10+1e-15)` (Pythagoras) -/
+theorem rejection_orthogonal_real {a b : Geonum ℝ} (ha : a.angle.Inv) (hb : b.angle.Inv) (h0a : 0 ≤ a.mag)
+    (hbm : flt (fabs b.mag) (e10 : ℝ) = false) :
+    let res := cart a - cart (a.project b)
+    |res.re * Real.cos (T b.angle) + res.im * Real.sin (T b.angle)| ≤ a.mag * (1 / 10 ^ 10 + 1 / 10 ^ 15) ∧
+    |(a.project b).mag ^ 2 + Complex.normSq res - a.mag ^ 2| ≤ 2 * a.mag ^ 2 * (1 / 10 ^ 10 + 1 / 10 ^ 15) := by
+  intro res
+  obtain ⟨δ, hδ, hc⟩ := project_cart_real ha hb hbm
+  set θ := T b.angle - T a.angle with hθ
+  set c' := Real.cos (θ + δ) with hc'
+  have hres : res = polar a.mag (T a.angle) - polar (a.mag * c') (T b.angle) := by
+    show cart a - cart (a.project b) = _
+    rw [hc]; rfl
+  have hsb := Real.sin_sq_add_cos_sq (T b.angle)
+  have hsa := Real.sin_sq_add_cos_sq (T a.angle)
+  have hcosθ : Real.cos θ = Real.cos (T b.angle) * Real.cos (T a.angle) + Real.sin (T b.angle) * Real.sin (T a.angle) := by
+    rw [hθ, Real.cos_sub]
+  have hlip := cos_lipschitz θ δ
+  have hre : res.re = a.mag * Real.cos (T a.angle) - a.mag * c' * Real.cos (T b.angle) := by rw [hres]; simp [polar]
+  have him : res.im = a.mag * Real.sin (T a.angle) - a.mag * c' * Real.sin (T b.angle) := by rw [hres]; simp [polar]
+  have halong : res.re * Real.cos (T b.angle) + res.im * Real.sin (T b.angle) = a.mag * (Real.cos θ - c') := by
+    rw [hre, him]
+    calc (a.mag * Real.cos (T a.angle) - a.mag * c' * Real.cos (T b.angle)) * Real.cos (T b.angle)
+          + (a.mag * Real.sin (T a.angle) - a.mag * c' * Real.sin (T b.angle)) * Real.sin (T b.angle)
+        = a.mag * (Real.cos (T b.angle) * Real.cos (T a.angle) + Real.sin (T b.angle) * Real.sin (T a.angle))
+          - a.mag * c' * (Real.sin (T b.angle) ^ 2 + Real.cos (T b.angle) ^ 2) := by ring
+      _ = a.mag * (Real.cos θ - c') := by rw [← hcosθ, hsb]; ring
+  constructor
+  · rw [halong, abs_mul, abs_of_nonneg h0a]
+    apply mul_le_mul_of_nonneg_left _ h0a
+    rw [abs_sub_comm]; exact le_trans hlip (le_of_lt hδ)
+  · -- |proj|² + |res|² − |a|² = 2|a|² c'(c' − cos θ)
+    have hpm : (a.project b).mag ^ 2 = a.mag ^ 2 * c' ^ 2 := by
+      have h0p : 0 ≤ (a.project b).mag := by
+        have := (project_mag_bounds (F := ℝ) (a := a) (b := b) trivial h0a hbm trivial).1
+        simpa only [val_id] using this
+      have hn : ‖cart (a.project b)‖ = (a.project b).mag := by
+        show ‖polar (a.project b).mag _‖ = _
+        rw [norm_polar, abs_of_nonneg h0p]
+      have hn2 : ‖cart (a.project b)‖ = |a.mag * c'| := by rw [hc, norm_polar]
+      rw [← hn, hn2, sq_abs]; ring
+    have hns : Complex.normSq res = a.mag ^ 2 + a.mag ^ 2 * c' ^ 2 - 2 * a.mag ^ 2 * c' * Real.cos θ := by
+      rw [Complex.normSq_apply, hre, him, hcosθ]
+      have e1 : (a.mag * Real.cos (T a.angle) - a.mag * c' * Real.cos (T b.angle)) * (a.mag * Real.cos (T a.angle) - a.mag * c' * Real.cos (T b.angle))
+          + (a.mag * Real.sin (T a.angle) - a.mag * c' * Real.sin (T b.angle)) * (a.mag * Real.sin (T a.angle) - a.mag * c' * Real.sin (T b.angle))
+          = a.mag ^ 2 * (Real.sin (T a.angle) ^ 2 + Real.cos (T a.angle) ^ 2)
+            + a.mag ^ 2 * c' ^ 2 * (Real.sin (T b.angle) ^ 2 + Real.cos (T b.angle) ^ 2)
+            - 2 * a.mag ^ 2 * c' * (Real.cos (T b.angle) * Real.cos (T a.angle) + Real.sin (T b.angle) * Real.sin (T a.angle)) := by ring
+      rw [e1, hsa, hsb]; ring
+    rw [hpm, hns]
+    have e : a.mag ^ 2 * c' ^ 2 + (a.mag ^ 2 + a.mag ^ 2 * c' ^ 2 - 2 * a.mag ^ 2 * c' * Real.cos θ) - a.mag ^ 2
+        = 2 * a.mag ^ 2 * (c' * (c' - Real.cos θ)) := by ring
+    rw [e, abs_mul, abs_of_nonneg (by positivity)]
+    apply mul_le_mul_of_nonneg_left _ (by positivity)
+    rw [abs_mul]
+    have hc1 : |c'| ≤ 1 := Real.abs_cos_le_one _
+    calc |c'| * |c' - Real.cos θ| ≤ 1 * (1 / 10 ^ 10 + 1 / 10 ^ 15) :=
+          mul_le_mul hc1 (le_trans hlip (le_of_lt hδ)) (abs_nonneg _) (by norm_num)
+      _ = 1 / 10 ^ 10 + 1 / 10 ^ 15 := one_mul _
+
 end E
 
-/-! PARTIAL (not yet proved): orthogonality of the rejection and Pythagoras as separate statements (they follow from
-    `project_cart_real` and `project_add_reject_real` by the trigonometric computation sketched in DESIGN §8),
-    project_to_dimension k = |a|cos(kπ/2 − t).  Explored by `oracle.C11.*`. -/
+/-! PARTIAL (not yet proved): project_to_dimension k = |a|cos(kπ/2 − t) in exact arithmetic (explored by `oracle.C11.dim`). -/
 
 example {F : Type} [FloatSpec F] : (⟨zero, 1⟩ : Angle F).Inv := inv_zero 1
 
